@@ -53,7 +53,11 @@ NotifyClauses(notes, view, before, after, reqs, differ, merge) ==
              \cup (IF \A k \in dl : notes[k].p \in Deleted(view, before) \/ notes[k].p \in Gone(view, before) THEN {} ELSE {"deleteOfKeptPath"})
              \cup (IF \A k1, k2 \in dl : notes[k1].p = notes[k2].p => k1 = k2 THEN {} ELSE {"deleteReportedTwice"}))
   \cup (IF \A k \in nd : notes[k].dgOK /\ notes[k].hdr = notes[k].sh
-                         /\ notes[k].bytes = (IF notes[k].p \in reqs /\ Has(after, notes[k].p) THEN At(after, notes[k].p).c ELSE EmptyContent)
+                         \* header only for entries whose content is not transferred: directories, links (also when a
+                         \* confused receiver requested one), special files
+                         /\ notes[k].bytes = (IF notes[k].p \in reqs /\ Has(after, notes[k].p)
+                                                 /\ Has(view, notes[k].p) /\ At(view, notes[k].p).t = "file" /\ At(view, notes[k].p).hl = <<>>
+                                              THEN At(after, notes[k].p).c ELSE EmptyContent)
         THEN {} ELSE {"digest"})
   \cup (IF \A k \in nd : \A j \in nd : Under(notes[k].p, notes[j].p) => j < k THEN {} ELSE {"childBeforeParent"})
   \cup (IF \A k \in dl : \A j \in nd : (notes[j].p = notes[k].p \/ Under(notes[j].p, notes[k].p)) => k < j THEN {} ELSE {"addBeforeDelete"})
